@@ -266,6 +266,9 @@ class JSON(Filetype):
                    f'(char {de.pos})'
         except UnicodeDecodeError as ue:
             return f'Error parsing {os.path.basename(path)}: {ue!s}'
+        except ValueError as ve:
+            # e.g., an integer literal with more digits than the interpreter converts
+            return f'Error parsing {os.path.basename(path)}: {ve!s}'
         except RecursionError:
             return f'Error parsing {os.path.basename(path)}: the document is nested too deeply'
 
